@@ -102,6 +102,33 @@ fn drive<I, T>(
     }
 }
 
+/// iterator methods beyond next(): count, nth, last, and len() after nth (defaults today; a
+/// specialisation of any of them has to agree with what next() enumerates)
+fn beyond_next<I, T>(mk: impl Fn() -> I, conv: impl Fn(T) -> Item, out: &[Item], j: usize, errs: &mut Vec<String>, what: &str)
+where
+    I: Iterator<Item = T> + ExactSizeIterator,
+{
+    let n = out.len();
+    let c = mk().count();
+    ic!(*errs, c == n, "{}: count() = {}, next() yields {}", what, c, n);
+    if n == 0 {
+        ic!(*errs, mk().last().is_none() && mk().nth(0).is_none(), "{}: last()/nth(0) of an empty iterator is Some", what);
+        return;
+    }
+    let j = j.min(n - 1);
+    let l = mk().last().map(&conv);
+    ic!(*errs, l == Some(out[n - 1]), "{}: last() = {:?}, the last item next() yields is {:?}", what, l, out[n - 1]);
+    let mut it = mk();
+    let x = it.nth(j).map(&conv);
+    ic!(*errs, x == Some(out[j]), "{}: nth({}) = {:?}, the item next() yields there is {:?}", what, j, x, out[j]);
+    ic!(*errs, it.len() == n - j - 1 && it.size_hint() == (n - j - 1, Some(n - j - 1)), "{}: after nth({}) len() = {}, {} remain", what, j, it.len(), n - j - 1);
+    let y = it.next().map(&conv);
+    ic!(*errs, y == out.get(j + 1).copied(), "{}: the item after nth({}) is {:?}, expected {:?}", what, j, y, out.get(j + 1));
+    ic!(*errs, mk().nth(n).is_none(), "{}: nth(len) is Some", what);
+    let sk = mk().skip(j).count();
+    ic!(*errs, sk == n - j, "{}: skip({}).count() = {}, expected {}", what, j, sk, n - j);
+}
+
 impl<F: Fam> Ctx<F> {
     pub fn do_iterate(&mut self, s: usize, kind: IterKind, clone_at: Option<u16>, extra: u8, write: Option<u32>) -> Result<(), Fail> {
         let n = self.slots[s].model.len();
@@ -257,6 +284,13 @@ impl<F: Fam> Ctx<F> {
                 }
             }
             if out.len() == n {
+                match kind {
+                    IterKind::Iter => beyond_next(|| m.iter(), |(k, v): (&F::K, &F::V)| (k.k(), k.id(), v.v(), v.id()), &out, skip, &mut errs, "iter()"),
+                    IterKind::RefIntoIter => beyond_next(|| (&*m).into_iter(), |(k, v): (&F::K, &F::V)| (k.k(), k.id(), v.v(), v.id()), &out, skip, &mut errs, "(&map).into_iter()"),
+                    IterKind::Keys => beyond_next(|| m.keys(), |k: &F::K| (k.k(), k.id(), 0, 0), &out, skip, &mut errs, "keys()"),
+                    IterKind::Values => beyond_next(|| m.values(), |v: &F::V| (0, 0, v.v(), v.id()), &out, skip, &mut errs, "values()"),
+                    _ => {}
+                }
                 let same = match kind {
                     // the mutable kinds were driven with a write: compare keys / ids only
                     IterKind::IterMut | IterKind::MutIntoIter | IterKind::ValuesMut => folded.len() == n - skip && folded.iter().zip(out[skip..].iter()).all(|(a, b)| a.0 == b.0 && a.1 == b.1 && a.3 == b.3),
@@ -373,6 +407,12 @@ impl<F: Fam> Ctx<F> {
             if forget {
                 std::mem::forget(d);
             } else {
+                if take_n % 3 == 1 {
+                    // stepping past the end (nth, as skip and step_by do) consumes what is left
+                    // and leaves an exhausted iterator
+                    ic!(errs, d.nth(rem + 1).is_none(), "drain(): nth({}) with {} items left is Some", rem + 1, rem);
+                    ic!(errs, d.len() == 0 && d.size_hint() == (0, Some(0)) && d.next().is_none(), "drain(): after nth() past the end len() = {}, not exhausted", d.len());
+                }
                 drop(d);
             }
             (out, errs)
@@ -464,6 +504,10 @@ impl<F: Fam> Ctx<F> {
                     }
                 }
                 ic!(errs, it.len() == rem, "into_iter(): len() = {} after taking {}, {} remain", it.len(), take_n, rem);
+                if take_n % 3 == 1 && take_n < n {
+                    ic!(errs, it.nth(rem + 1).is_none(), "into_iter(): nth({}) with {} items left is Some", rem + 1, rem);
+                    ic!(errs, it.len() == 0 && it.size_hint() == (0, Some(0)) && it.next().is_none(), "into_iter(): after nth() past the end len() = {}, not exhausted", it.len());
+                }
                 if take_n >= n {
                     ic!(errs, it.next().is_none(), "into_iter(): yielded more than len() items");
                     ic!(errs, it.next().is_none(), "into_iter(): yielded an item after None");
